@@ -720,4 +720,484 @@ instance (d : Diagram V) : Decidable d.WF :=
   decidable_of_iff (d.levels.length = d.units.length ∧ wf d.C d.levels d.root)
     ⟨fun h => ⟨h.1, h.2⟩, fun h => ⟨h.1, h.2⟩⟩
 
+
+/-! ### constructors: `chain`, `tree` -/
+
+/-- all edge values of all nodes are zero -/
+def ZeroAd (L : List (Level V)) : Prop := ∀ lv ∈ L, ∀ j c, (nodeAt lv j).ad c = 0
+
+theorem eval_zeroAd {L : List (Level V)} (h : ZeroAd L) (j : ℕ) (as : List ℕ) : evalFrom L j as = 0 := by
+  induction L generalizing j as with
+  | nil => simp [evalFrom]
+  | cons lv L ih =>
+    cases as with
+    | nil => simp [evalFrom]
+    | cons a as =>
+      simp only [evalFrom]
+      rw [h lv (by simp), ih (fun lv' h' => h lv' (by simp [h'])), add_zero]
+
+theorem liveZero_ch (C c : ℕ) : (liveZero C : Node V).ch c = 0 := by
+  simp [liveZero, Node.ch, List.getD_eq_getElem?_getD, List.getElem?_replicate]; split <;> rfl
+
+theorem liveZero_ad (C c : ℕ) : (liveZero C : Node V).ad c = 0 := by
+  simp [liveZero, Node.ad, List.getD_eq_getElem?_getD, List.getElem?_replicate]; split <;> rfl
+
+theorem default_ad (c : ℕ) : (⟨false, [], []⟩ : Node V).ad c = 0 := rfl
+
+/-- a level all of whose nodes carry zero edge values -/
+theorem zeroAd_of_forall {lv : Level V} (h : ∀ nd ∈ lv, ∀ c, nd.ad c = 0) (j c : ℕ) : (nodeAt lv j).ad c = 0 := by
+  by_cases hj : j < lv.length
+  · rw [nodeAt_eq_getElem hj]; exact h _ (List.getElem_mem hj) c
+  · simp [nodeAt, List.getD_eq_getElem?_getD, List.getElem?_eq_none (Nat.le_of_not_lt hj)]; rfl
+
+theorem chain_wf (units : List ℕ) (C : ℕ) : (chain units C : Diagram V).WF := by
+  refine ⟨by simp [chain], ?_⟩
+  simp only [chain]
+  induction units with
+  | nil => trivial
+  | cons u us ih =>
+    simp only [List.map_cons, wf]
+    refine ⟨rfl, fun c _ => ?_⟩
+    have : (nodeAt [liveZero C] 0 : Node V).ch c = 0 := liveZero_ch C c
+    rw [this]; exact ih
+
+theorem eval_chain (units : List ℕ) (C : ℕ) (as : List ℕ) : (chain units C : Diagram V).eval as = 0 := by
+  apply eval_zeroAd
+  intro lv hlv j c
+  simp only [chain, List.mem_map] at hlv
+  obtain ⟨_, _, rfl⟩ := hlv
+  apply zeroAd_of_forall
+  intro nd hnd c
+  simp only [List.mem_singleton] at hnd
+  subst hnd; exact liveZero_ad C c
+
+
+/-- the level function of `construct_tree` -/
+def treeLevel (C n : ℕ) (i : ℕ) : Level V :=
+  if i + 1 < n then
+    (List.range (C ^ (n - 1))).map (fun j =>
+      if j < C ^ i then
+        (Node.mk true ((List.range C).map (fun c => 2 * j + c)) (List.replicate C 0) : Node V)
+      else blank C)
+  else List.replicate (C ^ (n - 1)) (liveZero C)
+
+theorem tree_eq (units : List ℕ) (C : ℕ) :
+    (tree units C : Except Err (Diagram V)) =
+      if units.length = 0 then .error Err.typeError
+      else if C ≠ 2 ∧ 2 ≤ units.length then .error Err.valueError
+      else .ok { units := units, C := C, diameter := C ^ (units.length - 1), root := 0,
+                 levels := (List.range units.length).map (treeLevel C units.length) } := by
+  unfold tree
+  by_cases h0 : units.length = 0
+  · simp [h0]; rfl
+  · by_cases h1 : C ≠ 2 ∧ 2 ≤ units.length
+    · rw [if_neg h0, if_pos h1, if_neg (by simpa using h0), if_pos (by simpa using h1)]; rfl
+    · rw [if_neg h0, if_neg h1, if_neg (by simpa using h0), if_neg (by simpa using h1)]; rfl
+
+theorem replicate_ad (C c : ℕ) (b : Bool) (ch : List ℕ) : (Node.mk b ch (List.replicate C (0 : V))).ad c = 0 := by
+  simp [Node.ad, List.getD_eq_getElem?_getD, List.getElem?_replicate]; split <;> rfl
+
+theorem treeLevel_zeroAd (C n i j c : ℕ) : (nodeAt (treeLevel (V := V) C n i) j).ad c = 0 := by
+  apply zeroAd_of_forall
+  intro nd hnd c
+  unfold treeLevel at hnd
+  split at hnd
+  · simp only [List.mem_map, List.mem_range] at hnd
+    obtain ⟨j, _, rfl⟩ := hnd
+    split
+    · exact replicate_ad C c _ _
+    · exact blank_ad C c
+  · rw [List.mem_replicate] at hnd
+    rw [hnd.2]; exact liveZero_ad C c
+
+theorem wf_treeLevels (C n : ℕ) (hC : C = 2 ∨ n = 1) (m i j : ℕ) (him : i + m = n) (hj : j < C ^ i) :
+    wf C ((List.range' i m).map (treeLevel (V := V) C n)) j := by
+  induction m generalizing i j with
+  | zero => trivial
+  | succ m ih =>
+    simp only [List.range'_succ, List.map_cons, wf]
+    by_cases hi : i + 1 < n
+    · have hC2 : C = 2 := by rcases hC with h | h <;> omega
+      subst hC2
+      have hjd : j < 2 ^ (n - 1) := lt_of_lt_of_le hj (Nat.pow_le_pow_right (by omega) (by omega))
+      have hnode : nodeAt (treeLevel (V := V) 2 n i) j =
+          Node.mk true ((List.range 2).map (fun c => 2 * j + c)) (List.replicate 2 0) := by
+        unfold treeLevel
+        rw [if_pos hi, nodeAt_eq_getElem (by simpa using hjd)]
+        simp [hj]
+      rw [hnode]
+      refine ⟨rfl, fun c hc => ih (i + 1) _ (by omega) ?_⟩
+      have : (Node.mk true ((List.range 2).map (fun c => 2 * j + c)) (List.replicate 2 (0 : V))).ch c = 2 * j + c := by
+        simp [Node.ch, List.getD_eq_getElem?_getD, hc]
+      rw [this, pow_succ]; omega
+    · have hm : m = 0 := by omega
+      subst hm
+      have hin : i = n - 1 := by omega
+      have hnode : nodeAt (treeLevel (V := V) C n i) j = liveZero C := by
+        unfold treeLevel
+        rw [if_neg hi, nodeAt_eq_getElem (by simpa [hin] using hj)]
+        simp
+      rw [hnode]
+      exact ⟨rfl, fun c _ => trivial⟩
+
+theorem tree_spec (units : List ℕ) (C : ℕ) (d : Diagram V) (h : tree units C = .ok d) :
+    d.WF ∧ d.units = units ∧ d.C = C ∧ (C = 2 ∨ units.length = 1) ∧ ∀ as, d.eval as = 0 := by
+  rw [tree_eq] at h
+  by_cases h0 : units.length = 0
+  · rw [if_pos h0] at h; cases h
+  by_cases h1 : C ≠ 2 ∧ 2 ≤ units.length
+  · rw [if_neg h0, if_pos h1] at h; cases h
+  rw [if_neg h0, if_neg h1] at h
+  simp only [Except.ok.injEq] at h
+  subst h
+  have hC : C = 2 ∨ units.length = 1 := by
+    by_cases hc : C = 2
+    · exact Or.inl hc
+    · right; have := not_and.mp h1 hc; omega
+  refine ⟨⟨by simp, ?_⟩, rfl, rfl, hC, ?_⟩
+  · simp only [List.range_eq_range']
+    exact wf_treeLevels C units.length hC units.length 0 0 (by omega) (by simp)
+  · intro as
+    apply eval_zeroAd
+    intro lv hlv j c
+    simp only [List.mem_map] at hlv
+    obtain ⟨i, _, rfl⟩ := hlv
+    exact treeLevel_zeroAd C units.length i j c
+
+theorem tree_ok (units : List ℕ) (C : ℕ) (h0 : units ≠ []) (hC : C = 2 ∨ units.length = 1) :
+    ∃ d : Diagram V, tree units C = .ok d := by
+  rw [tree_eq, if_neg (by simpa using h0), if_neg (by omega)]
+  exact ⟨_, rfl⟩
+
+
+/-! ### `update` -/
+
+/-- same activity flags, children and adder widths -/
+def NodeShape (a b : Node V) : Prop := a.active = b.active ∧ a.child = b.child ∧ a.adder.length = b.adder.length
+
+/-- level lists with the same graph (only edge values may differ) -/
+def SameShape (L L' : List (Level V)) : Prop := List.Forall₂ (List.Forall₂ NodeShape) L L'
+
+theorem forall₂_refl' {α} {R : α → α → Prop} (hr : ∀ a, R a a) (l : List α) : List.Forall₂ R l l := by
+  induction l with
+  | nil => exact .nil
+  | cons a l ih => exact .cons (hr a) ih
+
+theorem forall₂_trans' {α} {R : α → α → Prop} (ht : ∀ a b c, R a b → R b c → R a c) {x y z : List α}
+    (h1 : List.Forall₂ R x y) (h2 : List.Forall₂ R y z) : List.Forall₂ R x z := by
+  induction h1 generalizing z with
+  | nil => cases h2; exact .nil
+  | cons h _ ih => cases h2 with
+    | cons h' t => exact .cons (ht _ _ _ h h') (ih t)
+
+theorem forall₂_modify {α} {R : α → α → Prop} (hr : ∀ a, R a a) (f : α → α) (hf : ∀ a, R a (f a)) (l : List α)
+    (i : ℕ) : List.Forall₂ R l (l.modify i f) := by
+  induction l generalizing i with
+  | nil => simp
+  | cons a l ih =>
+    cases i with
+    | zero => simp only [List.modify_zero_cons]; exact .cons (hf a) (forall₂_refl' hr l)
+    | succ i => simp only [List.modify_succ_cons]; exact .cons (hr a) (ih i)
+
+theorem NodeShape.refl (a : Node V) : NodeShape a a := ⟨rfl, rfl, rfl⟩
+theorem NodeShape.trans (a b c : Node V) (h1 : NodeShape a b) (h2 : NodeShape b c) : NodeShape a c :=
+  ⟨h1.1.trans h2.1, h1.2.1.trans h2.2.1, h1.2.2.trans h2.2.2⟩
+
+theorem SameShape.refl (L : List (Level V)) : SameShape L L := forall₂_refl' (forall₂_refl' NodeShape.refl) L
+theorem SameShape.trans {L1 L2 L3 : List (Level V)} (h1 : SameShape L1 L2) (h2 : SameShape L2 L3) :
+    SameShape L1 L3 :=
+  forall₂_trans' (R := List.Forall₂ NodeShape) (fun _ _ _ h h' => forall₂_trans' NodeShape.trans h h') h1 h2
+
+theorem nodeShape_nodeAt {la lb : Level V} (h : List.Forall₂ NodeShape la lb) (j : ℕ) :
+    NodeShape (nodeAt la j) (nodeAt lb j) := by
+  induction h generalizing j with
+  | nil => exact NodeShape.refl _
+  | cons h _ ih =>
+    cases j with
+    | zero => exact h
+    | succ j => exact ih j
+
+theorem SameShape.wf {L L' : List (Level V)} (h : SameShape L L') (C j : ℕ) (hw : wf C L j) : wf C L' j := by
+  induction h generalizing j with
+  | nil => trivial
+  | @cons la lb _ _ h _ ih =>
+    have hn := nodeShape_nodeAt h j
+    refine ⟨hn.1 ▸ hw.1, fun c hc => ?_⟩
+    have : (nodeAt la j).ch c = (nodeAt lb j).ch c := by unfold Node.ch; rw [hn.2.1]
+    rw [← this]; exact ih _ (hw.2 c hc)
+
+theorem SameShape.length {L L' : List (Level V)} (h : SameShape L L') : L.length = L'.length :=
+  List.Forall₂.length_eq h
+
+theorem SameShape.getD {L L' : List (Level V)} (h : SameShape L L') (i : ℕ) :
+    List.Forall₂ NodeShape (L.getD i []) (L'.getD i []) := by
+  induction h generalizing i with
+  | nil => exact .nil
+  | cons h _ ih =>
+    cases i with
+    | zero => exact h
+    | succ i => exact ih i
+
+/-- one step of `update` -/
+def upd1 (v : V) (inc : Bool) (L : List (Level V)) (e : ℕ × ℕ × ℕ) : List (Level V) :=
+  L.modify e.1 (fun lv => lv.modify e.2.1 (fun nd =>
+    { nd with adder := nd.adder.modify e.2.2 (fun old => if inc then old + v else v) }))
+
+theorem update_eq (d : Diagram V) (loc : List (ℕ × ℕ × ℕ)) (v : V) (inc : Bool) :
+    d.update loc v inc = { d with levels := loc.foldl (upd1 v inc) d.levels } := rfl
+
+theorem upd1_shape (v : V) (inc : Bool) (L : List (Level V)) (e : ℕ × ℕ × ℕ) : SameShape L (upd1 v inc L e) := by
+  unfold upd1
+  apply forall₂_modify (forall₂_refl' NodeShape.refl)
+  intro lv
+  apply forall₂_modify NodeShape.refl
+  intro nd
+  exact ⟨rfl, rfl, by simp⟩
+
+theorem foldl_upd1_shape (v : V) (inc : Bool) (loc : List (ℕ × ℕ × ℕ)) (L : List (Level V)) :
+    SameShape L (loc.foldl (upd1 v inc) L) := by
+  induction loc generalizing L with
+  | nil => exact SameShape.refl L
+  | cons e loc ih => exact (upd1_shape v inc L e).trans (ih _)
+
+theorem update_wf (d : Diagram V) (loc : List (ℕ × ℕ × ℕ)) (v : V) (inc : Bool) (h : d.WF) :
+    (d.update loc v inc).WF := by
+  have hs := foldl_upd1_shape v inc loc d.levels
+  exact ⟨hs.length.symm.trans h.len, hs.wf _ _ h.reach⟩
+
+/-- the value carried by edge `c` of node `j` of level `i` -/
+def edge (L : List (Level V)) (i j c : ℕ) : V := (nodeAt (L.getD i []) j).ad c
+
+/-- the edge exists in the arrays -/
+def inRange (L : List (Level V)) (e : ℕ × ℕ × ℕ) : Prop :=
+  e.1 < L.length ∧ e.2.1 < (L.getD e.1 []).length ∧ e.2.2 < (nodeAt (L.getD e.1 []) e.2.1).adder.length
+
+theorem SameShape.inRange {L L' : List (Level V)} (h : SameShape L L') (e : ℕ × ℕ × ℕ) (hr : inRange L e) :
+    inRange L' e := by
+  obtain ⟨h1, h2, h3⟩ := hr
+  have hl := h.getD e.1
+  refine ⟨h.length ▸ h1, hl.length_eq ▸ h2, ?_⟩
+  rw [← (nodeShape_nodeAt hl e.2.1).2.2]; exact h3
+
+theorem getD_modify {α} (l : List α) (i i' : ℕ) (f : α → α) (dflt : α) :
+    (l.modify i f).getD i' dflt = if i = i' ∧ i < l.length then f (l.getD i dflt) else l.getD i' dflt := by
+  simp only [List.getD_eq_getElem?_getD, List.getElem?_modify]
+  by_cases h : i = i'
+  · subst h
+    by_cases h2 : i < l.length
+    · simp [h2]
+    · simp [h2, List.getElem?_eq_none (Nat.le_of_not_lt h2)]
+  · simp [h]
+
+theorem edge_upd1 (v : V) (inc : Bool) (L : List (Level V)) (e : ℕ × ℕ × ℕ) (hr : inRange L e) (i j c : ℕ) :
+    edge (upd1 v inc L e) i j c =
+      if (i, j, c) = e then (if inc then edge L i j c + v else v) else edge L i j c := by
+  obtain ⟨ei, ej, ec⟩ := e
+  obtain ⟨h1, h2, h3⟩ := hr
+  simp only at h1 h2 h3
+  unfold edge upd1 nodeAt Node.ad
+  simp only [getD_modify]
+  by_cases hi : ei = i
+  · subst hi
+    simp only [h1, and_self, if_true, getD_modify]
+    by_cases hj : ej = j
+    · subst hj
+      simp only [h2, and_self, if_true, getD_modify]
+      by_cases hc : ec = c
+      · subst hc
+        have h3' : ec < ((L.getD ei []).getD ej ⟨false, [], []⟩).adder.length := h3
+        simp only [h3', and_self, if_true]
+      · have : ¬ ((ei, ej, c) = (ei, ej, ec)) := by simp; exact fun h => hc h.symm
+        simp [hc, this]
+    · have : ¬ ((ei, j, c) = (ei, ej, ec)) := by simp; exact fun h _ => hj h.symm
+      simp [hj, this]
+  · have : ¬ ((i, j, c) = (ei, ej, ec)) := by simp; exact fun h => absurd h.symm hi
+    simp [hi, this]
+
+theorem edge_foldl_upd1 (v : V) (inc : Bool) (loc : List (ℕ × ℕ × ℕ)) (L : List (Level V))
+    (hnd : loc.Nodup) (hr : ∀ e ∈ loc, inRange L e) (i j c : ℕ) :
+    edge (loc.foldl (upd1 v inc) L) i j c =
+      if (i, j, c) ∈ loc then (if inc then edge L i j c + v else v) else edge L i j c := by
+  induction loc generalizing L with
+  | nil => simp
+  | cons e loc ih =>
+    rw [List.nodup_cons] at hnd
+    have hs := upd1_shape v inc L e
+    rw [List.foldl_cons, ih _ hnd.2 (fun e' he' => hs.inRange e' (hr e' (by simp [he']))),
+      edge_upd1 v inc L e (hr e (by simp))]
+    by_cases he : (i, j, c) = e
+    · subst he
+      simp [hnd.1]
+    · simp [he]
+
+
+/-! ### `concatenate` -/
+
+def diamOf (els : List (Diagram V)) : ℕ := (els.map (·.diameter)).foldl max 0
+
+theorem concatenate_eq (e0 : Diagram V) (rest : List (Diagram V)) :
+    concatenate (e0 :: rest) =
+      if ∃ e ∈ e0 :: rest, e.C ≠ e0.C then .error Err.assertionError
+      else if e0.C ≠ 2 then .error Err.valueError
+      else if ∃ e ∈ e0 :: rest, e.units = [] then .error Err.other
+      else .ok { units := (e0 :: rest).flatMap (·.units), C := 2, diameter := diamOf (e0 :: rest), root := e0.root,
+                 levels := concatenate.go (diamOf (e0 :: rest)) (e0 :: rest) } := by
+  unfold concatenate
+  dsimp only
+  by_cases h1 : ∃ e ∈ e0 :: rest, e.C ≠ e0.C
+  · rw [if_pos h1, if_pos (by simpa using h1)]; rfl
+  rw [if_neg h1, if_neg (by simpa using h1)]
+  by_cases h2 : e0.C ≠ 2
+  · rw [if_pos h2, if_pos (by simpa using h2)]; rfl
+  rw [if_neg h2, if_neg (by simpa using h2)]
+  by_cases h3 : ∃ e ∈ e0 :: rest, e.units = []
+  · rw [if_pos h3, if_pos (by simpa using h3)]; rfl
+  rw [if_neg h3, if_neg (by simpa using h3)]; rfl
+
+
+/-- what `concatenate` does to the last level of an element: active nodes point to the next root -/
+def redirect (r : ℕ) (l : Level V) : Level V :=
+  l.map (fun nd => if nd.active = true then { nd with child := List.replicate 2 r } else nd)
+
+theorem nodeAt_map (f : Node V → Node V) (hf : f ⟨false, [], []⟩ = ⟨false, [], []⟩) (l : Level V) (j : ℕ) :
+    nodeAt (l.map f) j = f (nodeAt l j) := by
+  by_cases hj : j < l.length
+  · simp [nodeAt, List.getD_eq_getElem?_getD, hj]
+  · simp [nodeAt, List.getD_eq_getElem?_getD, List.getElem?_eq_none (Nat.le_of_not_lt hj), hf]
+
+theorem nodeAt_redirect (r : ℕ) (l : Level V) (j : ℕ) (h : (nodeAt l j).active = true) :
+    nodeAt (redirect r l) j = { nodeAt l j with child := List.replicate 2 r } := by
+  unfold redirect
+  rw [nodeAt_map _ (by simp)]
+  simp [h]
+
+theorem go_cons_cons (diam : ℕ) (e e' : Diagram V) (rest : List (Diagram V)) :
+    concatenate.go diam (e :: e' :: rest) =
+      (e.levels.map (padLevel 2 · diam)).modify ((e.levels.map (padLevel 2 · diam)).length - 1) (redirect e'.root) ++
+        concatenate.go diam (e' :: rest) := by
+  rw [concatenate.go.eq_3]; rfl
+
+theorem eval_glue (r : ℕ) (L : List (Level V)) (hne : L ≠ []) (M : List (Level V)) (j : ℕ) (as bs : List ℕ)
+    (hlen : as.length = L.length) (hC : ∀ a ∈ as, a < 2) (hw : wf 2 L j) :
+    evalFrom (L.modify (L.length - 1) (redirect r) ++ M) j (as ++ bs) = evalFrom L j as + evalFrom M r bs := by
+  induction L generalizing j as with
+  | nil => exact absurd rfl hne
+  | cons lv L' ih =>
+    match as, hlen with
+    | a :: as', hlen =>
+      have ha : a < 2 := hC a (by simp)
+      cases L' with
+      | nil =>
+        have has : as' = [] := by simpa using hlen
+        subst has
+        simp only [List.length_cons, List.length_nil, Nat.zero_add, Nat.sub_self, List.modify_zero_cons,
+          List.cons_append, List.nil_append, evalFrom, nodeAt_redirect r lv j hw.1]
+        have : (Node.mk (nodeAt lv j).active (List.replicate 2 r) (nodeAt lv j).adder).ch a = r := by
+          have : a = 0 ∨ a = 1 := by omega
+          rcases this with rfl | rfl <;> rfl
+        rw [this, add_zero]; rfl
+      | cons lv2 L'' =>
+        have : (lv :: lv2 :: L'').length - 1 = ((lv2 :: L'').length - 1) + 1 := by simp
+        rw [this, List.modify_succ_cons]
+        simp only [List.cons_append, evalFrom]
+        rw [ih (by simp) _ as' (by simpa using hlen) (fun x hx => hC x (by simp [hx])) (hw.2 a ha), add_assoc]
+
+theorem wf_glue (r : ℕ) (L : List (Level V)) (hne : L ≠ []) (M : List (Level V)) (j : ℕ)
+    (hw : wf 2 L j) (hM : wf 2 M r) : wf 2 (L.modify (L.length - 1) (redirect r) ++ M) j := by
+  induction L generalizing j with
+  | nil => exact absurd rfl hne
+  | cons lv L' ih =>
+    cases L' with
+    | nil =>
+      simp only [List.length_cons, List.length_nil, Nat.zero_add, Nat.sub_self, List.modify_zero_cons,
+        List.cons_append, List.nil_append, wf, nodeAt_redirect r lv j hw.1]
+      refine ⟨hw.1, fun c hc => ?_⟩
+      have : (Node.mk (nodeAt lv j).active (List.replicate 2 r) (nodeAt lv j).adder).ch c = r := by
+        have : c = 0 ∨ c = 1 := by omega
+        rcases this with rfl | rfl <;> rfl
+      rw [this]; exact hM
+    | cons lv2 L'' =>
+      have : (lv :: lv2 :: L'').length - 1 = ((lv2 :: L'').length - 1) + 1 := by simp
+      rw [this, List.modify_succ_cons]
+      simp only [List.cons_append, wf]
+      exact ⟨hw.1, fun c hc => ih (by simp) _ (hw.2 c hc)⟩
+
+/-- hypotheses on the elements of a concatenation -/
+def ConcOK (e : Diagram V) : Prop := e.WF ∧ e.C = 2 ∧ e.units ≠ []
+
+theorem ConcOK.levels_ne {e : Diagram V} (h : ConcOK e) (diam : ℕ) : e.levels.map (padLevel 2 · diam) ≠ [] := by
+  intro hh
+  have := congrArg List.length hh
+  simp only [List.length_map, List.length_nil, h.1.len] at this
+  exact h.2.2 (List.length_eq_zero_iff.mp this)
+
+theorem wf_go (diam : ℕ) (e : Diagram V) (rest : List (Diagram V)) (h : ∀ x ∈ e :: rest, ConcOK x) :
+    wf 2 (concatenate.go diam (e :: rest)) e.root ∧
+    (concatenate.go diam (e :: rest)).length = ((e :: rest).flatMap (·.units)).length := by
+  induction rest generalizing e with
+  | nil =>
+    have he := h e (by simp)
+    rw [concatenate.go.eq_2]
+    exact ⟨wf_padLevels 2 diam _ _ (he.2.1 ▸ he.1.reach), by simp [he.1.len]⟩
+  | cons e' rest ih =>
+    have he := h e (by simp)
+    obtain ⟨i1, i2⟩ := ih e' (fun x hx => h x (by simp [hx]))
+    rw [go_cons_cons]
+    refine ⟨wf_glue _ _ (he.levels_ne diam) _ _ (wf_padLevels 2 diam _ _ (he.2.1 ▸ he.1.reach)) i1, ?_⟩
+    rw [List.length_append, i2]
+    simp [he.1.len]
+
+theorem eval_go (diam : ℕ) (e : Diagram V) (rest : List (Diagram V)) (h : ∀ x ∈ e :: rest, ConcOK x)
+    (ass : List (List ℕ))
+    (hF : List.Forall₂ (fun (x : Diagram V) as => as.length = x.units.length ∧ ∀ a ∈ as, a < 2) (e :: rest) ass) :
+    evalFrom (concatenate.go diam (e :: rest)) e.root ass.flatten =
+      (List.zipWith (fun (x : Diagram V) as => x.eval as) (e :: rest) ass).sum := by
+  induction rest generalizing e ass with
+  | nil =>
+    cases hF with
+    | cons h1 t =>
+      cases t
+      rw [concatenate.go.eq_2]
+      simp [eval_padLevels, Diagram.eval]
+  | cons e' rest ih =>
+    have he := h e (by simp)
+    cases hF with
+    | @cons _ as _ ass' h1 t =>
+      rw [go_cons_cons, List.flatten_cons,
+        eval_glue _ _ (he.levels_ne diam) _ _ as _ (by simp [h1.1, he.1.len]) h1.2
+          (wf_padLevels 2 diam _ _ (he.2.1 ▸ he.1.reach)),
+        ih e' (fun x hx => h x (by simp [hx])) ass' t, eval_padLevels]
+      simp [Diagram.eval]
+
+theorem concat_spec (els : List (Diagram V)) (d : Diagram V) (h : concatenate els = .ok d)
+    (hwf : ∀ e ∈ els, e.WF) :
+    d.WF ∧ d.units = els.flatMap (·.units) ∧ d.C = 2 ∧ (∀ e ∈ els, e.C = 2 ∧ e.units ≠ []) ∧
+    ∀ ass : List (List ℕ),
+      List.Forall₂ (fun (x : Diagram V) as => as.length = x.units.length ∧ ∀ a ∈ as, a < 2) els ass →
+      d.eval ass.flatten = (List.zipWith (fun (x : Diagram V) as => x.eval as) els ass).sum := by
+  cases els with
+  | nil => cases h
+  | cons e0 rest =>
+    rw [concatenate_eq] at h
+    by_cases h1 : ∃ e ∈ e0 :: rest, e.C ≠ e0.C
+    · rw [if_pos h1] at h; cases h
+    rw [if_neg h1] at h
+    by_cases h2 : e0.C ≠ 2
+    · rw [if_pos h2] at h; cases h
+    rw [if_neg h2] at h
+    by_cases h3 : ∃ e ∈ e0 :: rest, e.units = []
+    · rw [if_pos h3] at h; cases h
+    rw [if_neg h3] at h
+    simp only [Except.ok.injEq] at h
+    subst h
+    have hC : ∀ e ∈ e0 :: rest, e.C = 2 ∧ e.units ≠ [] := by
+      intro e he
+      refine ⟨?_, fun hh => h3 ⟨e, he, hh⟩⟩
+      have : e.C = e0.C := by by_contra hh; exact h1 ⟨e, he, hh⟩
+      rw [this]; exact not_not.mp h2
+    have hok : ∀ x ∈ e0 :: rest, ConcOK x := fun x hx => ⟨hwf x hx, hC x hx⟩
+    obtain ⟨w1, w2⟩ := wf_go (diamOf (e0 :: rest)) e0 rest hok
+    exact ⟨⟨w2, w1⟩, rfl, rfl, hC, fun ass hF => eval_go _ e0 rest hok ass hF⟩
+
+
 end Ds.Dd
